@@ -170,3 +170,16 @@ Proof. exact hypotheses_satisfiable. Qed.
 Example c02_inlining_non_vacuous : exists (tags : nat -> option (tagdetails nat nat)) d d',
   inline_dnf tags (fun x => x) 1 d = Some d' /\ length d' = 2.
 Proof. exact inlining_non_vacuous. Qed.
+
+(* the inversion hypothesis of c02_inlining_preserves_meaning is satisfiable: De Morgan on the DNF over
+   atoms with a polarity negates (on conditions about existing tags), and with it the theorem's
+   conclusion is obtained for `tag:0`, undecided, defined as atom 7 *)
+Example c02_inversion_hypothesis_satisfiable : forall base sid d,
+  Forall (Forall cond_wf) d ->
+  eval_dnf wtags (pe base) sid (demorgan d) = negb (eval_dnf wtags (pe base) sid d).
+Proof. exact demorgan_ok. Qed.
+
+Example c02_inlining_instance : forall base sid,
+  exists d', inline_dnf wtags demorgan 1 [[CTag 0 tag_plain]] = Some d' /\
+             eval_dnf wtags (pe base) sid d' = base 7.
+Proof. exact inlining_instance. Qed.
